@@ -2345,6 +2345,9 @@ def search(ctx, deep=False):
             shutil.rmtree(os.path.join(tempfile.gettempdir(), d), ignore_errors=True)
     ev2, v2 = history_search(ctx, ctx.scale(40, 1500) * (3 if deep else 1), ctx.scale(14, 30))
     viol += v2
+    ev3, v3 = container_protocol(ctx, ctx.scale(60, 600))
+    ev2 += ev3
+    viol += v3
     seen, uniq = set(), []
     for v in viol:
         if v["key"] not in seen:
@@ -2353,8 +2356,89 @@ def search(ctx, deep=False):
     return {"evaluations": ev0 + n + ev2, "violations": uniq[:10],
             "summary": f"{ev0} replayed findings; {n} calls of the real API over entry points x roles x layouts {layouts} x options with byte "
                        f"snapshots of every caller array and stored result (read-only inputs make silent writes raise); {ev2} steps of random "
-                       f"store/transform/krige/condition histories in which every array ever passed, returned or stored must keep its bytes",
+                       f"store/transform/krige/condition histories in which every array ever passed, returned or stored must keep its bytes "
+                       f"(incl. {ev3} steps of the stored-field container protocol — index / slice / list reads and deletions — against a dict reference)",
             "errors_of_extra_calls": errs, "history_steps": getattr(ctx, "c20_history_stats", {})}
+
+
+def container_protocol(ctx, n_hist):
+    """the stored-field container of Field objects (`len`, `in`, `obj[name | index | slice | list]`, `del obj[...]`,
+    `delete_fields`) against a plain ordered-dict reference: deleting or reading some stored results never alters, drops or
+    keeps others, and every surviving array keeps its bytes"""
+    import gstools as gs
+    rng = np.random.RandomState(ctx.seed + 2020)
+    viol, ev = [], 0
+    for h in range(n_hist):
+        dim = int(rng.randint(1, 3))
+        kind = h % 3
+        model = gs.Gaussian(dim=dim, var=1.0, len_scale=2.0)
+        pos = rng.rand(dim, 5) * 6
+        if kind == 0:
+            obj = gs.SRF(model, seed=int(rng.randint(1, 10 ** 6)), mode_no=8)
+            make = lambda name: obj(pos, store=name, seed=int(rng.randint(1, 10 ** 6)))
+        elif kind == 1:
+            obj = gs.krige.Ordinary(model, rng.rand(dim, 4) * 6, rng.randn(4))
+            make = lambda name: obj(pos, store=[name, name + "_var"])
+        else:
+            kr = gs.krige.Simple(model, rng.rand(dim, 4) * 6, rng.randn(4))
+            obj = gs.CondSRF(kr, seed=int(rng.randint(1, 10 ** 6)), mode_no=8)
+            make = lambda name: obj(pos, store=[name, name + "_raw", name + "_rk"], seed=int(rng.randint(1, 10 ** 6)))
+        names = ["f%d" % i for i in range(int(rng.randint(2, 6)))]
+        for nm in names:
+            make(nm)
+        ref = {nm: np.array(obj[nm], copy=True) for nm in obj.field_names}
+        order = list(obj.field_names)
+        desc = dict(kind=["SRF", "Krige", "CondSRF"][kind], stored=list(order))
+        for step in range(int(rng.randint(2, 7))):
+            r = rng.rand()
+            try:
+                if r < 0.25 and order:
+                    k = int(rng.randint(-len(order), len(order)))
+                    got, want = obj[k], ref[order[k]]
+                    op = f"obj[{k}]"
+                    ok = np.array_equal(got, want)
+                elif r < 0.4 and order:
+                    a, b = sorted(int(x) for x in rng.randint(0, len(order) + 1, size=2))
+                    got = obj[a:b]
+                    op = f"obj[{a}:{b}]"
+                    ok = len(got) == b - a and all(np.array_equal(g, ref[nm]) for g, nm in zip(got, order[a:b]))
+                elif r < 0.5 and order:
+                    sel = [order[i] for i in rng.permutation(len(order))[:int(rng.randint(1, len(order) + 1))]]
+                    got = obj[sel]
+                    op = f"obj[{sel}]"
+                    ok = len(got) == len(sel) and all(np.array_equal(g, ref[nm]) for g, nm in zip(got, sel))
+                elif r < 0.6:
+                    op = "len / in"
+                    ok = len(obj) == len(order) and all(nm in obj for nm in order) and ("nope" not in obj)
+                else:
+                    # deletions in every key form
+                    form = int(rng.randint(0, 5)) if order else 4
+                    if form == 0:
+                        gone = [order[int(rng.randint(len(order)))]]; key = gone[0]
+                    elif form == 1:
+                        k = int(rng.randint(-len(order), len(order))); gone = [order[k]]; key = k
+                    elif form == 2:
+                        a, b = sorted(int(x) for x in rng.randint(0, len(order) + 1, size=2)); gone = order[a:b]; key = slice(a, b)
+                    elif form == 3:
+                        gone = [order[i] for i in rng.permutation(len(order))[:int(rng.randint(1, len(order) + 1))]]; key = list(gone)
+                    else:
+                        gone = list(order); key = None
+                    op = "delete_fields()" if key is None else f"del obj[{key!r}]"
+                    if key is None:
+                        obj.delete_fields()
+                    else:
+                        del obj[key]
+                    order = [nm for nm in order if nm not in gone]
+                    ok = list(obj.field_names) == order and all(not hasattr(obj, nm) for nm in gone) and \
+                        all(np.array_equal(obj[nm], ref[nm]) for nm in order)
+            except Exception as e:   # noqa: BLE001
+                ok, op = False, f"{op if 'op' in dir() else 'op'} raised {type(e).__name__}: {e}"
+            ev += 1
+            if not ok:
+                viol.append({"key": f"stored-fields:container:{desc['kind']}", "what": f"after {op} the stored results are not the expected ones "
+                             f"(expected names {order}, object has {list(obj.field_names)})", "case": dict(desc, op=op)})
+                break
+    return ev, viol
 
 
 def replay(ctx, payload):
